@@ -454,6 +454,10 @@ class Exec:
         if m: return adt(m.group(1), None)
         m = re.match(r'([A-Z]\w*)(::<.*>)?$', s)
         if m: return adt(m.group(1), None)
+        m = re.match(r'[\w:<>]+::([A-Z][A-Z0-9_]+)$', s)
+        if m:      # associated / module constant of the crate: evaluate its own MIR body
+            ks = [k for k in self.consts if k.endswith('>::' + m.group(1)) or k.endswith('::' + m.group(1)) or k == m.group(1)]
+            if len(ks) == 1: return self.eval_const_fn(st, self.consts[ks[0]])
         if s in EXTERN_CONSTS: return IntVal(EXTERN_CONSTS[s])
         if re.match(r'[a-z_][\w]*(::\w+)+$', s): return ('extern_const', s)
         raise Unsupported('const: ' + s)
